@@ -231,7 +231,7 @@ func runC13(c *Ctx) {
 
 	// ---- R13.2 invoker's mapping
 	{
-		setP, tP := invoke.Params[0], invoke.Params[1]
+		tP := invoke.Params[1]
 		n := 0
 		for _, wn := range []string{"ADD", "PRE", "RENDER", "POST"} {
 			k := cc.times[wn]
@@ -239,28 +239,34 @@ func runC13(c *Ctx) {
 				_, ok := in.(*ssa.Phi)
 				return ok
 			})
-			// the list iterated: a phi over Field(set, i) / loads of the spilled set's fields; find the field index reaching the loop
+			// the list iterated: on each path, the slice whose elements are invoked was loaded from set.<list i>
 			idx := -1
 			ok := len(paths) > 0
 			for _, p := range paths {
+				if p.panicked {
+					ok = false
+					continue
+				}
 				got := -1
-				for _, b := range p.blocks {
+				for _, b := range invoke.Blocks {
 					for _, in := range b.Instrs {
+						var sl ssa.Value
 						switch x := in.(type) {
-						case *ssa.Field:
-							if x.X == ssa.Value(setP) {
-								got = x.Field
-							}
-						case *ssa.UnOp:
-							if fa, isFA := x.X.(*ssa.FieldAddr); isFA {
-								if al, isAl := fa.X.(*ssa.Alloc); isAl {
-									for _, rr := range referrersOf(al) {
-										if st, isSt := rr.(*ssa.Store); isSt && st.Val == ssa.Value(setP) {
-											got = fa.Field
-										}
-									}
-								}
-							}
+						case *ssa.IndexAddr:
+							sl = x.X
+						case *ssa.Range:
+							sl = x.X
+						case *ssa.Index:
+							sl = x.X
+						}
+						if sl == nil {
+							continue
+						}
+						if st, isSl := sl.Type().Underlying().(*types.Slice); !isSl || !isNamed(st.Elem(), modPath, "PropertyCallback") {
+							continue
+						}
+						if a, okA := p.resolve(sl); okA && a.kind == "load" && len(a.path) >= 1 {
+							got = a.path[len(a.path)-1]
 						}
 					}
 				}
@@ -329,43 +335,118 @@ func runC13(c *Ctx) {
 		})
 	}
 	r.Floor("R13.3", "invocation sites", len(sites), 22)
-	byFn := map[*ssa.Function][]site{}
+	// The documented events are stated for the exported operations; helpers they call are flattened into them
+	// (a helper's invocations count at the call's loop depth, its time parameter bound to the constant passed).
+	siteAt := map[ssa.Instruction]site{}
 	for _, s := range sites {
-		byFn[s.fn] = append(byFn[s.fn], s)
+		siteAt[s.in] = s
 	}
-	spec := map[string][]string{
-		"(*tabular.ATable).InvokeRenderCallbacks": {"table/ATable PRE 0", "column/column PRE 1", "rows - 0", "rows - 1", "column/column POST 1", "table/ATable POST 0"},
-		"(*tabular.Row).invokeRenderCallbacks": {"row/Row PRE 0", "table/Cell PRE 1", "column/Cell PRE 1", "row/Cell PRE 1", "table/Cell RENDER 1", "cell/Cell RENDER 1",
-			"row/Cell POST 1", "column/Cell POST 1", "table/Cell POST 1", "row/Row POST 0"},
-		"(*tabular.Row).Add":           {"row/Cell ADD 0"},
-		"(*tabular.ATable).AddRow":     {"row/Row ADD 0", "table/Row ADD 0", "column/Cell ADD 1", "table/Cell ADD 1"},
-		"(*tabular.ATable).AddHeaders": {"table/Row ADD 0", "column/Cell ADD 1", "table/Cell ADD 1"},
-	}
-	var fnNames []string
-	fnByName := map[string]*ssa.Function{}
-	for fn := range byFn {
-		fnNames = append(fnNames, FuncName(fn))
-		fnByName[FuncName(fn)] = fn
-	}
-	sort.Strings(fnNames)
-	for _, name := range fnNames {
-		ss := byFn[fnByName[name]]
-		sort.Slice(ss, func(i, j int) bool { return ss[i].order < ss[j].order })
-		var got []string
-		for _, s := range ss {
-			got = append(got, fmt.Sprintf("%s %s %d", s.role, s.time, s.depth))
+	var flatten func(fn *ssa.Function, env map[*ssa.Parameter]int64, base int, depth int, seen map[*ssa.Function]bool) []string
+	flatten = func(fn *ssa.Function, env map[*ssa.Parameter]int64, base int, depth int, seen map[*ssa.Function]bool) []string {
+		if depth > 4 || seen[fn] {
+			return nil
 		}
-		wantSeq, ok := spec[name]
-		if !ok {
-			r.Check("R13.3", name, "invokes callbacks", ss[0].in.Pos(), false, "callbacks are fired from a function that has no documented event: "+strings.Join(got, "; "))
+		seen[fn] = true
+		defer delete(seen, fn)
+		rpo := rpoOrder(fn)
+		type ev struct {
+			order int
+			items []string
+		}
+		var evs []ev
+		eachInstr(fn, func(in ssa.Instruction) {
+			callee := staticCallee(in)
+			if callee == nil {
+				return
+			}
+			ord := rpo[in.Block()]*10000 + instrIndex(in)
+			d := base + loopDepth(in.Block())
+			if callee == invoke {
+				s := siteAt[in]
+				tm := s.time
+				if tm == "non-constant" {
+					if par, ok := callCommon(in).Args[1].(*ssa.Parameter); ok {
+						if k, ok := env[par]; ok {
+							tm = cc.timeName(k)
+						}
+					}
+				}
+				evs = append(evs, ev{ord, []string{fmt.Sprintf("%s %s %d", s.role, tm, d)}})
+				return
+			}
+			if !inModule(callee) || len(callee.Blocks) == 0 || callee == reg {
+				return
+			}
+			cenv := map[*ssa.Parameter]int64{}
+			for i, par := range callee.Params {
+				if i < len(callCommon(in).Args) {
+					a := callCommon(in).Args[i]
+					if k, ok := constInt(a); ok {
+						cenv[par] = k
+					} else if p2, ok := a.(*ssa.Parameter); ok {
+						if k, ok := env[p2]; ok {
+							cenv[par] = k
+						}
+					}
+				}
+			}
+			if sub := flatten(callee, cenv, d, depth+1, seen); len(sub) > 0 {
+				evs = append(evs, ev{ord, sub})
+			}
+		})
+		sort.Slice(evs, func(i, j int) bool { return evs[i].order < evs[j].order })
+		var out []string
+		for _, e := range evs {
+			out = append(out, e.items...)
+		}
+		return out
+	}
+	rowBlock := func(d int) []string {
+		return []string{
+			fmt.Sprintf("row/Row PRE %d", d), fmt.Sprintf("table/Cell PRE %d", d+1), fmt.Sprintf("column/Cell PRE %d", d+1), fmt.Sprintf("row/Cell PRE %d", d+1),
+			fmt.Sprintf("table/Cell RENDER %d", d+1), fmt.Sprintf("cell/Cell RENDER %d", d+1),
+			fmt.Sprintf("row/Cell POST %d", d+1), fmt.Sprintf("column/Cell POST %d", d+1), fmt.Sprintf("table/Cell POST %d", d+1), fmt.Sprintf("row/Row POST %d", d)}
+	}
+	render := []string{"table/ATable PRE 0", "column/column PRE 1"}
+	render = append(render, rowBlock(0)...) // the header row, when there is one
+	render = append(render, rowBlock(1)...) // every row of the table, in order
+	render = append(render, "column/column POST 1", "table/ATable POST 0")
+	rowT := c.Named("", "Row")
+	roots := []struct {
+		fn   *ssa.Function
+		want []string
+	}{
+		{c.Method(at, true, "InvokeRenderCallbacks"), render},
+		{c.Method(rowT, true, "Add"), []string{"row/Cell ADD 0"}},
+		{c.Method(at, true, "AddRow"), []string{"row/Row ADD 0", "table/Row ADD 0", "column/Cell ADD 1", "table/Cell ADD 1"}},
+		{c.Method(at, true, "AddHeaders"), []string{"row/Cell ADD 1", "table/Row ADD 0", "column/Cell ADD 1", "table/Cell ADD 1"}},
+	}
+	covered := map[*ssa.Function]bool{}
+	var mark func(fn *ssa.Function, depth int)
+	mark = func(fn *ssa.Function, depth int) {
+		if fn == nil || covered[fn] || depth > 5 {
+			return
+		}
+		covered[fn] = true
+		eachInstr(fn, func(in ssa.Instruction) {
+			if f := staticCallee(in); f != nil && inModule(f) {
+				mark(f, depth+1)
+			}
+		})
+	}
+	for _, rt := range roots {
+		if rt.fn == nil {
 			continue
 		}
-		r.Check("R13.3", name, "sequence of callback invocations equals the documented one", ss[0].in.Pos(), strings.Join(got, "; ") == strings.Join(wantSeq, "; "),
-			"got ["+strings.Join(got, "; ")+"] want ["+strings.Join(wantSeq, "; ")+"]")
+		mark(rt.fn, 0)
+		got := flatten(rt.fn, nil, 0, 0, map[*ssa.Function]bool{})
+		r.Check("R13.3", FuncName(rt.fn), "sequence of callback invocations (helpers flattened) equals the documented one", rt.fn.Pos(), strings.Join(got, "; ") == strings.Join(rt.want, "; "),
+			"got ["+strings.Join(got, "; ")+"] want ["+strings.Join(rt.want, "; ")+"]")
 	}
-	for name := range spec {
-		if _, ok := fnByName[name]; !ok {
-			r.Check("R13.3", name, "documented event has invocation sites", 0, false, "no callback is fired from this function")
+	// callbacks fired from anywhere else have no documented event
+	for _, s := range sites {
+		if !covered[s.fn] {
+			r.Check("R13.3", FuncName(s.fn), "invokes callbacks outside the documented operations", s.in.Pos(), false, s.role+" "+s.time)
 		}
 	}
 	// per site: fired unconditionally (apart from loops and the nil test of the object holding the callback set)
@@ -442,7 +523,18 @@ func runC13(c *Ctx) {
 		wantT := s.role[strings.Index(s.role, "/")+1:]
 		r.Check("R13.3", FuncName(s.fn), "target of "+cnt+" has the type the callbacks were registered for", s.in.Pos(), tname == wantT, "target is *"+tname+", registered for "+wantT)
 		root, _ := addrPath(inner)
-		_, isLocal := root.(*ssa.Alloc)
+		isLocal := false
+		if al, isAl := root.(*ssa.Alloc); isAl {
+			// a local that holds a COPY of an existing object (whole-value store of something loaded/ranged),
+			// as opposed to an object built here by a composite literal
+			for _, rr := range referrersOf(al) {
+				if st, isSt := rr.(*ssa.Store); isSt && st.Addr == ssa.Value(al) {
+					if _, isConst := st.Val.(*ssa.Const); !isConst {
+						isLocal = true
+					}
+				}
+			}
+		}
 		if ia, ok := inner.(*ssa.IndexAddr); ok {
 			// element of a list loaded from a struct field
 			f, _ := loadedField(ia.X)
@@ -550,7 +642,8 @@ func regOutcomeOf(c *Ctx, reg *ssa.Function, p *symPath) (regOutcome, string) {
 		return out, "delegates to a registration with different arguments"
 	}
 	out.accepted = isNil(errV)
-	// the append store: *(&set.list) = append(...)
+	// the append store: *(&set.list) = append(...); its address resolves, on this path, to
+	// <owner object>.<callback set field>.<list field>
 	for _, in := range p.trace {
 		st, ok := in.(*ssa.Store)
 		if !ok {
@@ -559,24 +652,35 @@ func regOutcomeOf(c *Ctx, reg *ssa.Function, p *symPath) (regOutcome, string) {
 		if _, isApp := isBuiltinCall(st.Val, "append"); !isApp {
 			continue
 		}
-		a, ok := p.env[st.Addr]
-		var addr ssa.Value = st.Addr
-		if ok && a.kind == "nonnil" {
-			addr = a.v
-		}
-		fa, ok := addr.(*ssa.FieldAddr)
-		if !ok {
+		if sl, isSl := st.Val.Type().Underlying().(*types.Slice); !isSl || !isNamed(sl.Elem(), modPath, "PropertyCallback") {
 			continue
 		}
-		out.listIdx = fa.Field
-		sa, ok := p.env[fa.X]
-		var setAddr ssa.Value = fa.X
-		if ok && sa.kind == "nonnil" {
-			setAddr = sa.v
+		a, ok := p.resolve(st.Addr)
+		if !ok || a.kind != "addr" || len(a.path) < 2 || a.v == nil {
+			continue
 		}
-		if sfa, ok := setAddr.(*ssa.FieldAddr); ok {
-			out.setField = fieldOfFieldAddr(sfa)
-			out.setOwner = c.ownerOf(out.setField)
+		out.listIdx = a.path[len(a.path)-1]
+		// the set field: second to last step, a field of the root's struct (possibly through embedded structs)
+		var t types.Type = a.v.Type()
+		if pa, ok := p.resolve(a.v); ok && pa.t != nil {
+			t = pa.t
+		}
+		if pt, isP := t.Underlying().(*types.Pointer); isP {
+			t = pt.Elem()
+		}
+		var fld *types.Var
+		for _, idx := range a.path[:len(a.path)-1] {
+			st2, isS := t.Underlying().(*types.Struct)
+			if !isS || idx >= st2.NumFields() {
+				fld = nil
+				break
+			}
+			fld = st2.Field(idx)
+			t = fld.Type()
+		}
+		if fld != nil {
+			out.setField = fld
+			out.setOwner = c.ownerOf(fld)
 		}
 	}
 	if out.accepted && out.setField == nil {
